@@ -2,7 +2,7 @@ from common import COMMON_TB
 
 CFG = {
     "technique": "Lean 4 theorems over the symbolic write stream (Sym terms) emitted by every operation of the AddrDerive model + tap of every real Put/Delete with field-by-field decryption using keys recovered from the rows themselves + raw file image scan after every commit",
-    "level_text": "For every history the model's write stream exposes no secret outside a sealed box, no public key material in the clear, seals private material only under private-class keys, and after watching-only conversion + reopen nothing unlocks and every private accessor errors; on the whole file (waddrmgr next to wtxmgr) public material appears only in wtxmgr rows and only once a transaction is recorded; each real database row is parsed, every encrypted field is opened with the key class the model predicts and compared, and each committed file image is scanned for every secret / public item produced so far.",
+    "level_text": "For every history the model's write stream exposes no secret outside a sealed box, no public key material in the clear, seals private material only under private-class keys, and after watching-only conversion + reopen — directly or through Wallet.InitAccounts(watchOnly=true) on any start — nothing unlocks and every private accessor errors; on the whole file (waddrmgr next to wtxmgr) public material appears only in wtxmgr rows and only once a transaction is recorded; each real database row is parsed, every encrypted field is opened with the key class the model predicts and compared, and each committed file image is scanned for every secret / public item produced so far.",
     "level_note": "Partial: secretbox/scrypt are modelled as opaque constructors (cipher strength is not proved); free-page residue in the bbolt file is covered by scanning real images, i.e. empirically. The all-zero script key defect (O1) is fixed in the official tree (b81a3ff); its unfixed variant survives as a counter-example theorem and as a direct Go oracle at Unlock.",
     "lean_props": ["BtcwVerif.Props.C04"],
     "engines": ["addrmgr-derive"],
@@ -12,6 +12,7 @@ CFG = {
         "bbolt file layout: scanned as raw bytes after every commit (no assumption on page structure)",
     ],
     "assumptions": [
+        "wallet level: Wallet.InitAccounts is modelled as the composition of the manager operations it calls (opInitAccounts: NewRawAccount(a) = newAccount for a contiguous account range, then ConvertToWatchingOnly); a real wallet.Wallet is run through two starts + a probing third open by the engine op wmigrate",
         "only rows that carry key material, address-id hashes or the watching-only flag are part of the compared symbolic stream; all other rows are scanned for registered secrets/public items",
         "'until a transaction is recorded': the engine records real wtxmgr transactions (op rectx) in the same file; before the first one nothing public may be anywhere in the image, afterwards the waddrmgr namespace must still be clean and public items may sit in wtxmgr buckets only (C04_public_boundary, C04_waddrmgr_never_public)",
     ],
